@@ -288,6 +288,38 @@ def shared_service_scenario(draw, conf):
     return ev
 
 
+def table_growth_scenario(draw, conf):
+    """A reload adds a service whose name sorts before (or between) the configured ones while a client is half-way
+    through its registration: some services have been queried already, others are still waiting for data.  (Per-client
+    bookkeeping that refers to table positions must survive the table being rebuilt.)"""
+    cid = draw(st.sampled_from([3, 0, 41]))
+    other = cid + 1
+    data = [["N", cid, "host.example.org"], ["u", cid, "ident"], ["n", cid, "Nick"], ["U", cid, "user", "real name"]]
+    data = list(draw(st.permutations(data)))
+    cut = draw(st.integers(0, 3))
+    ev = [["C", cid, draw(st.sampled_from(IPS)), draw(st.integers(1, 65535))]]
+    if draw(st.booleans()):
+        ev.append(["P", cid, "+x acct pw"])
+    ev += data[:cut]
+    if draw(st.booleans()):
+        # another client may be waiting for one of the services meanwhile
+        ev += [["C", other, "10.9.9.9", 999], ["N", other, "o.example.org"], ["u", other, "o"], ["n", other, "Other"], ["U", other, "o", "other"], ["P", other, "+ b pw"]]
+    for s_ in conf["services"]:
+        if draw(st.integers(0, 2)) == 0:
+            ev.append(["X", cid, s_[0], draw(st.sampled_from(["OK", "AGAIN later", "OK acct:1"])), "cur"])
+    newname = draw(st.sampled_from(["aaa.ex", "aaa.ex", "ccc.ex", "fff.ex", "zzz.ex"]))
+    svcs = [list(s_) for s_ in conf["services"]] + [[newname, draw(st.sampled_from(proto.PROTOCOLS))]]
+    ev.append(["reconf", {"services": svcs}])
+    ev += data[cut:]
+    if not any(e_[0] == "P" for e_ in ev if e_[1] == cid):
+        ev.append(["P", cid, "+x acct pw"])
+    for s_ in svcs:
+        ev.append(["X", cid, s_[0], draw(st.sampled_from(["OK", "OK", "OK acct:1"])), "cur"])
+        ev.append(["X", other, s_[0], "OK", "cur"])
+    ev += [["H", cid]]
+    return ev
+
+
 EXTREME_IDS = [-2147483648, -2147483647, -2000000000, -1500000000, -2, 0, 5, 7, 1500000000, 2000000000, 2147483646, 2147483647]
 
 
@@ -306,6 +338,8 @@ def history_s(draw, pid, tier, conf=None, max_clients=None, distinct_ids=False, 
     if pid in ("C02", "C03", "C05") and 1 <= len(conf["services"]) <= 5 and any(s_[1] in ("login", "login-ipr", "combined") for s_ in conf["services"]) \
             and "iauth_xquery" in conf["modules"] and draw(st.integers(0, 13)) == 0:
         return {"conf": conf, "events": shared_service_scenario(draw, conf)}
+    if pid in ("C02", "C03", "C06") and 1 <= len(conf["services"]) <= 4 and "iauth_xquery" in conf["modules"] and draw(st.integers(0, 15)) == 0:
+        return {"conf": conf, "events": table_growth_scenario(draw, conf)}
     big = tier == "thorough"
     nscripts = draw(st.integers(1, max_clients or (6 if big else 4)))
     if distinct_ids:
